@@ -34,7 +34,19 @@ func main() {
 	trace := flag.Bool("trace", false, "include the event log in the output")
 	perRunLimit := flag.Duration("run-limit", 120*time.Second, "wall-clock watchdog per run")
 	twice := flag.Bool("twice", false, "run every seed twice and compare hashes (determinism self-test)")
+	states := flag.Bool("states", false, "include the list of abstract cluster state hashes")
+	dump := flag.Bool("dump", false, "print the generated config and plan of -seed and exit")
+	disk := flag.String("disk", "", "disk-only engine for C12 or C13")
 	flag.Parse()
+	_ = disk
+	if *dump {
+		cfg, plan := harness.Gen(*profile, *start)
+		if plan == nil {
+			plan = harness.Plan{}
+		}
+		json.NewEncoder(os.Stdout).Encode(map[string]interface{}{"config": cfg, "plan": plan})
+		return
+	}
 
 	out := bufio.NewWriter(os.Stdout)
 	defer out.Flush()
@@ -67,6 +79,7 @@ func main() {
 		}
 		rf.Config.Trace = *trace
 		res := harness.Run(rf.Config, rf.Plan)
+		res.States = nil
 		enc.Encode(res)
 		return
 	}
@@ -90,6 +103,9 @@ func main() {
 		select {
 		case progress <- struct{}{}:
 		default:
+		}
+		if !*states {
+			res.States = nil
 		}
 		enc.Encode(res)
 		if res.Infra != "" {
